@@ -390,9 +390,13 @@ func convertColumnToNumbers(wipBlock *WipBlock, colName string, segmentKey strin
 			numberAsString := string(oldColWip.cbuf.Slice(i, i+numBytes))
 			i += numBytes
 
+			// A string is only turned into a number when the number's canonical text
+			// is that string: "007", "+5", "1e3", "1.50" or "NaN" would not read back
+			// with their original content.
+
 			// Try converting to an integer.
 			intVal, err := strconv.ParseInt(numberAsString, 10, 64)
-			if err == nil {
+			if err == nil && strconv.FormatInt(intVal, 10) == numberAsString {
 				// Conversion succeeded.
 				newColWip.cbuf.Append(sutils.VALTYPE_ENC_INT64[:])
 				newColWip.cbuf.AppendInt64LittleEndian(intVal)
@@ -403,7 +407,7 @@ func convertColumnToNumbers(wipBlock *WipBlock, colName string, segmentKey strin
 
 			// Try converting to a float.
 			floatVal, err := strconv.ParseFloat(numberAsString, 64)
-			if err == nil {
+			if err == nil && strconv.FormatFloat(floatVal, 'f', -1, 64) == numberAsString {
 				// Conversion succeeded.
 				newColWip.cbuf.Append(sutils.VALTYPE_ENC_FLOAT64[:])
 				newColWip.cbuf.AppendFloat64LittleEndian(floatVal)
